@@ -755,11 +755,7 @@ func fieldByNameOf(ta *ssa.TypeAssert) (string, bool) {
 	if !ok2 || !calleeIs(call, "reflect", "Interface") || len(call.Call.Args) == 0 {
 		return "", false
 	}
-	fb, ok2 := call.Call.Args[0].(*ssa.Call)
-	if !ok2 || !calleeIs(fb, "reflect", "FieldByName") || len(fb.Call.Args) < 2 {
-		return "", false
-	}
-	return constString(fb.Call.Args[1])
+	return reflectFieldName(call.Call.Args[0], nil, 0)
 }
 
 // tagCaseOf: the assertion operand is reflect Interface() of field i of ValueOf(n), and the assertion sits under
@@ -1081,6 +1077,21 @@ func (c *Ctx) usesBeyondNilTest(fn *ssa.Function, i int) bool {
 // lives in.
 func (c *Ctx) containerAgreement(ta *ssa.TypeAssert) string {
 	src := ta.X
+	// the operand may be what one of several reads of the same container gave (`v, ok := m.Load(k); if !ok { v, _ =
+	// m.LoadOrStore(k, x) }`): every one of them is looked at
+	if phi, isP := src.(*ssa.Phi); isP {
+		why := ""
+		for _, e := range phi.Edges {
+			sub := *ta
+			sub.X = e
+			w := c.containerAgreement(&sub)
+			if w == "" {
+				return ""
+			}
+			why = w
+		}
+		return why
+	}
 	if ex, isE := src.(*ssa.Extract); isE {
 		src = ex.Tuple
 	}
